@@ -33,7 +33,26 @@ import (
 	"github.com/pbenner/autodiff/algorithm/qrAlgorithm"
 	"github.com/pbenner/autodiff/algorithm/rprop"
 	"github.com/pbenner/autodiff/algorithm/svd"
+	"github.com/pbenner/autodiff/special"
 )
+
+// caller-owned series / continued fraction that never converge: Eval calls are counted
+type constSeries struct{ cnt *counter }
+
+func (s constSeries) Eval() float64 { s.cnt.evals++; return 1.0 }
+
+type altFraction struct{ cnt *counter }
+
+func (s altFraction) Eval() (float64, float64) {
+	s.cnt.evals++
+	if s.cnt.evals%2 == 0 {
+		return 1.0, 2.0
+	}
+	return -3.0, 0.5
+}
+
+var specialArgs = []float64{0, 1e-300, 0.5, 1, 2.5, 3.5, 7.25, 170.5, 1e6, 1e15, 1e300, -0.5, -2.5, -1e15, -1e300}
+var specialFns = []string{"Digamma", "Trigamma", "Polygamma2", "Zeta", "GammaP", "GammaQ", "LogErfc", "BesselI", "LogBesselI", "Mlgamma", "GammaPd1"}
 
 type TCase struct {
 	Id      int       `json:"id"`
@@ -112,6 +131,15 @@ func matFamilies(n int, rng *Rng) map[string][]float64 {
 		rot[n*n-1] = 1
 	}
 	// the NaN / +Inf entry itself is patched in by the child (JSON cannot carry it): see fixNonFinite
+	toep := z()
+	for i := 0; i < n; i++ {
+		toep[i*n+i] = 2
+		if i+1 < n {
+			toep[i*n+i+1] = 1
+			toep[(i+1)*n+i] = 1
+		}
+	}
+	fam["toeplitz-121"] = toep // symmetric positive definite, equal diagonal entries
 	fam["identity"] = id
 	fam["repeated-2I"] = two
 	fam["negdiag"] = neg
@@ -197,6 +225,23 @@ func termCases(opts Opts) []TCase {
 	}
 	add(TCase{Routine: "linesearch", Family: "constraints-never", N: 1, Obj: "quadratic", Cap: 20, P: []float64{1}})
 	add(TCase{Routine: "linesearch", Family: "constraints-small", N: 1, Obj: "quadratic", Cap: 20, P: []float64{2}})
+	for _, cp := range []int{0, 1, 7, 1000} {
+		add(TCase{Routine: "sumseries", Family: "constant-terms", N: 1, Cap: cp})
+		add(TCase{Routine: "sumlogseries", Family: "constant-terms", N: 1, Cap: cp})
+		add(TCase{Routine: "contfrac", Family: "alternating", N: 1, Cap: cp})
+	}
+	for _, fn := range specialFns {
+		for _, x := range specialArgs {
+			for _, y := range []float64{0.5, 3, 1e4} {
+				add(TCase{Routine: "special", Family: fn, N: 1, Cap: -1, P: []float64{x, y}})
+				if fn != "GammaP" && fn != "GammaQ" && fn != "BesselI" && fn != "LogBesselI" && fn != "GammaPd1" {
+					break
+				}
+			}
+		}
+		add(TCase{Routine: "special", Family: fn, N: 1, Cap: -1, Obj: "nan"})
+		add(TCase{Routine: "special", Family: fn, N: 1, Cap: -1, Obj: "inf"})
+	}
 	for _, st := range []int{0, 1, 10} {
 		add(TCase{Routine: "blahut", Family: "uniform", N: 3, Cap: st})
 		add(TCase{Routine: "blahut", Family: "zero-channel", N: 3, Cap: st})
@@ -380,6 +425,49 @@ func runTermCase(c TCase) (res TRes) {
 		}
 		_, err = lineSearch.Run(phi, ad.Float64Type, args...)
 		res.Evals = cnt.evals
+	case "sumseries":
+		special.SumSeries(constSeries{cnt}, 0.0, 1e-300, c.Cap)
+		res.Iters, res.Evals = cnt.evals, cnt.evals
+	case "sumlogseries":
+		special.SumLogSeries(constSeries{cnt}, 0.0, -1e300, c.Cap)
+		res.Iters, res.Evals = cnt.evals, cnt.evals
+	case "contfrac":
+		special.EvalContinuedFraction(altFraction{cnt}, 0.0, c.Cap)
+		res.Iters, res.Evals = cnt.evals-1, cnt.evals
+	case "special":
+		x, y := 0.0, 0.0
+		switch c.Obj {
+		case "nan":
+			x, y = math.NaN(), math.NaN()
+		case "inf":
+			x, y = math.Inf(1), math.Inf(1)
+		default:
+			x, y = c.P[0], c.P[1]
+		}
+		switch c.Family {
+		case "Digamma":
+			special.Digamma(x)
+		case "Trigamma":
+			special.Trigamma(x)
+		case "Polygamma2":
+			special.Polygamma(2, x)
+		case "Zeta":
+			special.Zeta(x)
+		case "GammaP":
+			special.GammaP(y, x)
+		case "GammaQ":
+			special.GammaQ(y, x)
+		case "GammaPd1":
+			special.GammaPfirstDerivative(y, x)
+		case "LogErfc":
+			special.LogErfc(x)
+		case "BesselI":
+			special.BesselI(y, x)
+		case "LogBesselI":
+			special.LogBesselI(y, x)
+		case "Mlgamma":
+			special.Mlgamma(x, 3)
+		}
 	case "blahut":
 		ch := ad.NullDenseFloat64Matrix(c.N, c.N)
 		if c.Family == "uniform" {
